@@ -118,6 +118,46 @@ def pmap(fn, items, chunksize=None, procs=None):
     return res
 
 
+def pmap_dynamic(fn, items, procs=None):
+    """Unordered parallel map where ``fn(item)`` returns ``(result, more_items)``; the extra items
+    are fed back into the queue (work splitting for unbalanced search trees)."""
+    import collections
+
+    procs = procs or ncpu()
+    queue = collections.deque(items)
+    results = []
+    if procs == 1 or os.environ.get("VF_SERIAL"):
+        while queue:
+            tag, val = _call_wrapped((fn, queue.popleft()))
+            if tag != "ok":
+                raise HarnessError("worker failed (%s): %s" % (tag, val))
+            results.append(val[0])
+            queue.extend(val[1])
+        return results
+    ctx = multiprocessing.get_context("fork")
+    with ctx.Pool(procs, initializer=_pool_init) as pool:
+        pending = []
+        while queue or pending:
+            while queue and len(pending) < procs * 3:
+                pending.append(pool.apply_async(_call_wrapped, ((fn, queue.popleft()),)))
+            still = []
+            progressed = False
+            for p in pending:
+                if p.ready():
+                    progressed = True
+                    tag, val = p.get()
+                    if tag != "ok":
+                        raise HarnessError("worker failed (%s): %s" % (tag, val))
+                    results.append(val[0])
+                    queue.extend(val[1])
+                else:
+                    still.append(p)
+            pending = still
+            if not progressed:
+                time.sleep(0.005)
+    return results
+
+
 # ---------------------------------------------------------------------------------------------
 # known findings
 # ---------------------------------------------------------------------------------------------
